@@ -701,7 +701,7 @@ def comprehension(interp, st, node, kind):
             if l is None or isinstance(l, str):
                 arrs.append(l)
             else:
-                arrs.append(z3.Lambda([k], to_z3(l)))
+                arrs.append(V.lam_array(k, l))
         return SymList(val, arrs, n)
     finally:
         # comprehension variables do not leak
